@@ -157,3 +157,15 @@ MUTANTS += [
     M("c12-send-outside-lock", "C12", "_send: channel.send after releasing the lock", (P, "                data = self._send_queue.pop(0)\n                self._channel.send(data)\n            finally:\n                self._sendlock.release()", "                data = self._send_queue.pop(0)\n            finally:\n                self._sendlock.release()\n            self._channel.send(data)")),
     M("c12-direct-send", "C12", "_send: own message sent directly when the lock is free, queue bypassed", (P, "        self._send_queue.append(data)\n        # It is crucial", "        if self._sendlock.acquire(False):\n            try:\n                self._channel.send(data)\n            finally:\n                self._sendlock.release()\n            return\n        self._send_queue.append(data)\n        # It is crucial")),
 ]
+
+MUTANTS += [
+    # ---- C11
+    M("c11-close-no-guard", "C11", "close(): closed guard removed (hook can run twice)", (P, '        """closes the connection, releasing all held resources"""\n        if self._closed:\n            return\n', '        """closes the connection, releasing all held resources"""\n')),
+    M("c11-cleanup-skips-hook", "C11", "_cleanup skips on_disconnect when already flagged closed", (P, "        self._channel.close()\n        self._local_root.on_disconnect(self)", "        self._channel.close()\n        if not self._closed or not _anyway:\n            self._local_root.on_disconnect(self)")),
+    M("c11-serve-swallows-eof", "C11", "serve() swallows EOFError without closing", (P, "        except EOFError:\n            self.close()\n            raise\n        finally:\n            self._recvlock.release()", "        except EOFError:\n            return False\n        finally:\n            self._recvlock.release()")),
+    M("c11-serve-all-no-finally", "C11", "serve_all does not close on exit", (P, "        except EOFError:\n            pass\n        finally:\n            self.close()\n\n    def serve_threaded", "        except EOFError:\n            pass\n\n    def serve_threaded")),
+    M("c11-handle-close-noop", "C11", "_handle_close does not clean up", (P, "    def _handle_close(self):  # request handler\n        self._cleanup()", "    def _handle_close(self):  # request handler\n        pass")),
+    M("c11-close-waits", "C11", "close() waits for a reply to its close request", (P, "            self._async_request(consts.HANDLE_CLOSE)\n        except EOFError:", "            self.async_request(consts.HANDLE_CLOSE).wait()\n        except EOFError:")),
+    M("c11-eof-not-closing", "C11", "serve(): EOF while receiving re-raised without close()", (P, "        except EOFError:\n            self.close()\n            raise\n        finally:\n            self._recvlock.release()", "        except EOFError:\n            raise\n        finally:\n            self._recvlock.release()")),
+    M("c11-closed-flag-late", "C11", "_cleanup: flag set after the hook", (P, "        self._closed = True\n        self._channel.close()\n        self._local_root.on_disconnect(self)", "        self._channel.close()\n        self._local_root.on_disconnect(self)\n        self._closed = True")),
+]
